@@ -22,7 +22,73 @@ func init() {
 	register("T-DECODE", ruleDecode)
 }
 
-func (c *Ctx) lexerNext() *ssa.Function { return c.method("Lexer", "next") }
+// The lexer's cursor primitives by role: next is the method () rune that moves
+// the cursor itself, peek the other method () rune, back the method () that
+// moves the cursor and returns nothing. Conventional names break ties.
+func (c *Ctx) lexerPrims() (next, back, peek *ssa.Function) {
+	if c.lexPrims[0] != nil {
+		return c.lexPrims[0], c.lexPrims[1], c.lexPrims[2]
+	}
+	L := c.A.LexerT
+	writesPos := func(f *ssa.Function) bool {
+		for _, b := range f.Blocks {
+			for _, in := range b.Instrs {
+				if st, ok := in.(*ssa.Store); ok {
+					if fa, ok := st.Addr.(*ssa.FieldAddr); ok {
+						if pt, ok := fa.X.Type().Underlying().(*types.Pointer); ok && types.Identical(pt.Elem(), L) && fieldName(L, fa.Field) == "currentPos" {
+							return true
+						}
+					}
+				}
+			}
+		}
+		return false
+	}
+	var nexts, peeks, backs []*ssa.Function
+	for _, f := range allFuncs(c.SLib) {
+		if f.Blocks == nil || f.Signature.Recv() == nil || f.Parent() != nil {
+			continue
+		}
+		t := f.Signature.Recv().Type()
+		if pt, ok := t.(*types.Pointer); ok {
+			t = pt.Elem()
+		}
+		if !types.Identical(t, L) || f.Signature.Params().Len() != 0 {
+			continue
+		}
+		res := f.Signature.Results()
+		switch {
+		case res.Len() == 1 && types.Identical(res.At(0).Type(), types.Typ[types.Rune]):
+			if writesPos(f) {
+				nexts = append(nexts, f)
+			} else {
+				peeks = append(peeks, f)
+			}
+		case res.Len() == 0 && writesPos(f):
+			backs = append(backs, f)
+		}
+	}
+	one := func(role, name string, cands []*ssa.Function, required bool) *ssa.Function {
+		if len(cands) == 1 {
+			return cands[0]
+		}
+		for _, f := range cands {
+			if f.Name() == name {
+				return f
+			}
+		}
+		if required {
+			lost("lexer primitive %s (conventionally %s): %d candidates", role, name, len(cands))
+		}
+		return nil
+	}
+	c.lexPrims[0] = one("read the next rune", "next", nexts, true)
+	c.lexPrims[1] = one("push the last rune back", "back", backs, false)
+	c.lexPrims[2] = one("look at the next rune", "peek", peeks, false)
+	return c.lexPrims[0], c.lexPrims[1], c.lexPrims[2]
+}
+
+func (c *Ctx) lexerNext() *ssa.Function { n, _, _ := c.lexerPrims(); return n }
 
 // callsTo lists the calls to callee inside fn.
 func callsTo(fn, callee *ssa.Function) []*ssa.Call {
@@ -382,7 +448,7 @@ func ruleScanLoopsOld(c *Ctx) *RuleResult {
 		if len(calls) != 1 {
 			lost("%s: expected one call of next(), found %d", s.fn, len(calls))
 		}
-		back := c.method("Lexer", "back")
+		_, back, _ := c.lexerPrims()
 		r.Instances++
 		got := func(x int64) string {
 			f := newFolder(c)
@@ -596,7 +662,7 @@ func ruleDecode(c *Ctx) *RuleResult {
 	}
 	// (a) quoted identifier
 	{
-		fn := c.method("Lexer", "consumeQuotedIdentifier")
+		fn := c.tokenProducerFn("tQuotedIdentifier", "consumeQuotedIdentifier")
 		r.Instances++
 		calls := find(fn, nil, nil)
 		pos := c.pos(fn.Pos())
@@ -618,7 +684,7 @@ func ruleDecode(c *Ctx) *RuleResult {
 	}
 	// (b) JSON literal token text
 	{
-		fn := c.method("Lexer", "consumeLiteral")
+		fn := c.tokenProducerFn("tJSONLiteral", "consumeLiteral")
 		r.Instances++
 		pos := c.pos(fn.Pos())
 		// the value field of the returned token
@@ -801,8 +867,8 @@ func ruleStringers(c *Ctx) *RuleResult {
 // pair specially.
 func ruleRawString(c *Ctx) *RuleResult {
 	r := &RuleResult{Doc: "consumeRawStringLiteral compares the scanned rune only with ' and \\, the look-ahead only with ' and eof, and writes to its buffer only pieces of the expression and the quote: every other backslash sequence is preserved", Floor: 3}
-	fn := c.method("Lexer", "consumeRawStringLiteral")
-	next, peek := c.lexerNext(), c.method("Lexer", "peek")
+	fn := c.tokenProducerFn("tStringLiteral", "consumeRawStringLiteral")
+	next, _, peek := c.lexerPrims()
 	srcOf := func(v ssa.Value) string {
 		seen := map[ssa.Value]bool{}
 		var f func(v ssa.Value) string
@@ -989,10 +1055,7 @@ var fieldNameRe = regexp.MustCompile(`^unicode\.ToUpper\(unicode/utf8\.DecodeRun
 // H-FIELDNAME: struct fields are matched after upper-casing the first rune.
 func ruleFieldName(c *Ctx) *RuleResult {
 	r := &RuleResult{Doc: "fieldFromStruct looks up unicode.ToUpper(first rune of key) + rest of key (rune-wise, not byte-wise)", Floor: 1}
-	fn := c.methodOpt("treeInterpreter", "fieldFromStruct")
-	if fn == nil {
-		lost("fieldFromStruct not found")
-	}
+	var fn *ssa.Function
 	want := "unicode.ToUpper(unicode/utf8.DecodeRuneInString(param#1)#0)+param#1[unicode/utf8.DecodeRuneInString(param#1)#1:]"
 	n := 0
 	for _, f := range allFuncs(c.SLib) {
